@@ -104,6 +104,9 @@ func classify(c Case) (labels []string, nontrivial bool) {
 			break
 		}
 	}
+	if c.TLS {
+		labels = append(labels, "inside-tls")
+	}
 	if c.Pipelined {
 		labels = append(labels, "pipelined")
 	} else {
